@@ -37,10 +37,13 @@ TYPES = {
         "sum": fld(N("Int"), [("xs", L(NN(N("Int"))), [1, 2]), ("ys", L(N("Int")))]),
         "o": fld(N("A")), "on": fld(NN(N("A"))), "l": fld(L(N("A"))), "ln": fld(NN(L(NN(N("A"))))),
         "i": fld(N("I")), "u": fld(N("U")), "li": fld(L(NN(N("Int")))), "lli": fld(L(L(N("Int")))),
-        "lu": fld(L(N("U"))), "lin": fld(L(NN(N("I"))))}},
+        "lu": fld(L(N("U"))), "lin": fld(L(NN(N("I")))),
+        # lists whose own nullability differs from their items' (the error of an item is absorbed at different places)
+        "la": fld(L(NN(N("A")))), "lb": fld(NN(L(N("A"))))}},
     "A": {"kind": "OBJECT", "possible": [], "fields": {
         "x": fld(N("Int")), "y": fld(NN(N("Int"))), "o": fld(N("A")), "i": fld(N("I")), "l": fld(L(N("Int"))),
-        "f": fld(N("Int"), [("x", N("Int"), 1)]), "s": fld(N("String")), "lu": fld(L(N("U")))}},
+        "f": fld(N("Int"), [("x", N("Int"), 1)]), "s": fld(N("String")), "lu": fld(L(N("U"))),
+        "la": fld(L(NN(N("A")))), "lb": fld(NN(L(N("A"))))}},
     "B": {"kind": "OBJECT", "possible": [], "fields": {"x": fld(N("Int")), "z": fld(NN(N("Int"))), "o": fld(N("A"))}},
     "I": {"kind": "INTERFACE", "possible": ["A", "B"], "fields": {"x": fld(N("Int"))}},
     "U": {"kind": "UNION", "possible": ["A", "B"], "fields": {}},
@@ -127,7 +130,9 @@ def schema():
 # generator
 
 VARDEFS = [("vi", N("Int"), None), ("vd", N("Int"), 3), ("vn", NN(N("Int")), None), ("vt", NN(N("Boolean")), True),
-           ("vf", NN(N("Boolean")), False), ("vb", NN(N("Boolean")), None)]
+           ("vf", NN(N("Boolean")), False), ("vb", NN(N("Boolean")), None),
+           # list variables; vl's default is the same literal as vd's and coerces to [3]
+           ("vl", L(N("Int")), 3), ("vm", L(NN(N("Int"))), [4, 3])]
 
 
 def gen_outcome(rnd, t, depth, p_null=0.12, p_err=0.1, p_bad=0.04):
@@ -206,6 +211,12 @@ class DocGen:
             if r < 0.35 and not (nonnull and not a["hasDefault"]):
                 continue   # not provided
             r2 = rnd.random()
+            if a["type"][0] == "L" and r2 < 0.35:
+                # a list variable as the whole argument: vm ([Int!]) fits both, vl ([Int]) only nullable items
+                var = rnd.choice(["vm"] + ([] if a["type"][1][0] == "NN" else ["vl"]))
+                self.used_vars.add(var)
+                out.append([a["name"], {"t": "var", "n": var}])
+                continue
             if a["type"][0] == "L":
                 # a list literal whose items are integers, nulls (nullable items only) or variables of a compatible type
                 item_nn = a["type"][1][0] == "NN"
@@ -316,6 +327,43 @@ def gen_conforming_obj(rnd, tn, depth):
     return {"t": "o", "type": tn, "f": {f: oc(fd["type"], depth - 1) for f, fd in TYPES[tn]["fields"].items()}}
 
 
+def doc_field_names(doc):
+    """field names selected anywhere in the document (+ x, which the C13 mutants add)"""
+    names = {"x"}
+
+    def walk(sels):
+        for sl in sels:
+            if sl["k"] == "F":
+                names.add(sl["name"])
+            if "sel" in sl:
+                walk(sl["sel"])
+    walk(doc["sel"])
+    for fr in doc["frags"].values():
+        walk(fr["sel"])
+    return names
+
+
+def prune(oc, names):
+    """drop the object fields no selection of the document can reach (keeps the records small)"""
+    if oc["t"] == "l":
+        return {"t": "l", "v": [prune(x, names) for x in oc["v"]]}
+    if oc["t"] == "o":
+        return {"t": "o", "type": oc["type"], "f": {f: prune(v, names) for f, v in oc["f"].items() if f in names}}
+    return oc
+
+
+def var_value(rnd, t):
+    """a provided variable value the variable's type accepts (lists: a list, or a single value that coercion wraps)"""
+    if t[0] == "NN":
+        return var_value(rnd, t[1])
+    if t[0] == "L":
+        if rnd.random() < 0.3:
+            return var_value(rnd, N(named_of(t)))
+        item_nn = t[1][0] == "NN"
+        return {"t": "l", "v": [{"t": "null"} if (not item_nn and rnd.random() < 0.2) else var_value(rnd, t[1]) for _ in range(rnd.randint(0, 3))]}
+    return {"t": "b", "v": rnd.random() < 0.5} if t[1] == "Boolean" else {"t": "i", "v": rnd.randint(0, 9)}
+
+
 def gen_case(seed, depth=3, op="query"):
     rnd = random.Random(seed)
     g = DocGen(rnd)
@@ -332,9 +380,10 @@ def gen_case(seed, depth=3, op="query"):
         if r < 0.33 and (not nonnull or rnd.random() < 0.1):
             variables[vd["name"]] = {"t": "null"}
         else:
-            variables[vd["name"]] = {"t": "b", "v": rnd.random() < 0.5} if isbool else {"t": "i", "v": rnd.randint(0, 9)}
-    root = gen_obj(rnd, root_type, depth)
-    return {"schema": ABS if op == "query" else ABS_MUTATION, "doc": {"sel": sel, "frags": g.frags or {"_": {"on": "Query", "sel": []}}, "vardefs": vardefs},
+            variables[vd["name"]] = var_value(rnd, vd["type"])
+    doc = {"sel": sel, "frags": g.frags or {"_": {"on": "Query", "sel": []}}, "vardefs": vardefs}
+    root = prune(gen_obj(rnd, root_type, depth), doc_field_names(doc))
+    return {"schema": ABS if op == "query" else ABS_MUTATION, "doc": doc,
             "vars": variables or {"_": {"t": "null"}}, "root": root}
 
 
@@ -359,9 +408,11 @@ def gen_subscription_case(seed, depth=2):
             continue
         if vd["type"][0] != "NN" and rnd.random() < 0.2:
             continue
-        variables[vd["name"]] = {"t": "b", "v": rnd.random() < 0.5} if isbool else {"t": "i", "v": rnd.randint(0, 9)}
-    events = [gen_obj(rnd, "Subscription", depth) for _ in range(rnd.choice([0, 1, 2, 3, 4]))]
-    return {"schema": ABS_SUBSCRIPTION, "doc": {"sel": [root_field], "frags": g.frags or {"_": {"on": "Query", "sel": []}}, "vardefs": vardefs},
+        variables[vd["name"]] = var_value(rnd, vd["type"])
+    doc = {"sel": [root_field], "frags": g.frags or {"_": {"on": "Query", "sel": []}}, "vardefs": vardefs}
+    names = doc_field_names(doc)
+    events = [prune(gen_obj(rnd, "Subscription", depth), names) for _ in range(rnd.choice([0, 1, 2, 3, 4]))]
+    return {"schema": ABS_SUBSCRIPTION, "doc": doc,
             "vars": variables or {"_": {"t": "null"}}, "events": events}
 
 
@@ -399,8 +450,16 @@ def render_vars(case):
     for n, v in case["vars"].items():
         if n == "_":
             continue
-        out[n] = None if v["t"] == "null" else v["v"]
+        out[n] = plain(v)
     return out
+
+
+def plain(v):
+    if v["t"] == "null":
+        return None
+    if v["t"] == "l":
+        return [plain(x) for x in v["v"]]
+    return v["v"]
 
 
 class Boom(Exception):
